@@ -1,12 +1,32 @@
 #!/usr/bin/env python3
-"""Validate MANIFEST.json and every evidence file against the schemas (run with python3-vt)."""
-import json, glob, sys, jsonschema
+"""Validate MANIFEST.json and every evidence file against the schemas (run with python3-vt), and check what the schema cannot say:
+the level written into an evidence file is the category claimed in MANIFEST.json, and the keys that level asks for are present."""
+import json, glob, os, sys, jsonschema
 ok = True
-jsonschema.validate(json.load(open("/verif/MANIFEST.json")), json.load(open("/root/.vp/MANIFEST.schema.json")))
+man = json.load(open("/verif/MANIFEST.json"))
+jsonschema.validate(man, json.load(open("/root/.vp/MANIFEST.schema.json")))
+cat = {c["property_id"]: c["level_claimed"]["category"] for c in man["checks"]}
 es = json.load(open("/root/.vp/EVIDENCE.schema.json"))
-for p in sorted(glob.glob("/verif/evidence/*.json")):
+NEED = {"model_checking": ["states", "transitions", "traces_validated_against_impl", "samples"],
+        "translation_validation": ["programs", "disagreements_checked", "samples"],
+        "exploration": ["evaluations", "distinct_nontrivial", "rule", "samples"],
+        "fault_enumeration": ["evaluations", "distinct_nontrivial", "rule", "samples"],
+        "proof": ["obligations", "discharged", "checker_cmd", "trusted_base"], "other": ["explanation"]}
+for pid in sorted(cat):
+    p = f"/verif/evidence/{pid}.json"
+    if not os.path.exists(p):
+        ok = False; print("MISSING", p); continue
     try:
-        jsonschema.validate(json.load(open(p)), es); print("ok  ", p)
-    except Exception as e:
-        ok = False; print("BAD ", p, str(e)[:300])
+        e = json.load(open(p))
+        jsonschema.validate(e, es)
+        if e["property_id"] != pid:
+            raise ValueError(f"property_id {e['property_id']!r} in {p}")
+        if e["level"] != cat[pid]:
+            raise ValueError(f"level {e['level']!r} but MANIFEST level_claimed.category is {cat[pid]!r}")
+        miss = [k for k in NEED[e["level"]] if k not in e["coverage"]]
+        if miss:
+            raise ValueError(f"coverage keys missing for level {e['level']}: {miss}")
+        print("ok  ", p)
+    except Exception as x:
+        ok = False; print("BAD ", p, str(x)[:300])
 sys.exit(0 if ok else 1)
